@@ -17,32 +17,63 @@ def resOf : Out → IORes
   | .errTimeout => .errTimeout
   | _ => .other
 
-/-- The observation the harness prints for a model step (`none`: the operation named no handle). -/
+theorem resOf_orRefused_ok (b : Bool) : resOf (Out.ok.orRefused b) = if b then .other else .ok := by
+  cases b <;> rfl
+
+/-- The observation the harness prints for a model step (`none`: the operation named no handle / connection). -/
 def obsOf : Op → Out → Option SObs
   | _, .badHandle => none
   | .open, .handle id => some (.opened id)
   | .close h, .closed u rel => some (.closed h u rel)
+  | .close h, .closedErr u rel => some (.closedErr h u rel)
   | .abort h, .closed u rel => some (.aborted h .ok u rel)
+  | .abort h, .closedErr u rel => some (.aborted h .other u rel)
   | .abort h, .abortedClosed u => some (.aborted h .errClosed u 0)
-  | .read h, o => some (.io h .read (resOf o))
-  | .write h, o => some (.io h .write (resOf o))
+  | .read h, o => some (.io h .read 0 (resOf o))
+  | .write h c, o => some (.io h .write c (resOf o))
   | .setrd h p, o => some (.dl h true false p (resOf o))
   | .setwd h p, o => some (.dl h false true p (resOf o))
   | .setd h p, o => some (.dl h true true p (resOf o))
+  | .refuse c on, .ok => some (.fault c on)
   | .feed, .fed r => some (.fed r)
   | .feed, .skip => some .skip
   | _, _ => none
 
 /-- The monitor's bookkeeping agrees with the model state; in particular the handles that HOLD a write deadline for
-the monitor are the open wrappers whose `writeDeadlineArmed` is set. -/
+the monitor are the open wrappers whose `writeDeadlineArmed` is set, and the connections the monitor regards as not
+healthy are those with a register of their own. -/
 structure Rel (s : State) (m : SMon) : Prop where
   isOpen : m.isOpen = s.handles.map isOpenB
   parked : m.parked = s.handles.map (·.pending)
   u : m.u = s.uCloses
   ownRd : m.ownRd = s.handles.map (·.rdlPast)
   ownWd : m.ownWd = s.handles.map armedOpen
+  refusing : m.refusing = s.conns.map (·.refuse)
+  everRef : m.everRef = s.conns.map (·.dirty)
 
-theorem rel_init (fwd : Bool) : Rel (State.initK fwd) {} := ⟨rfl, rfl, rfl, rfl, rfl⟩
+theorem rel_init (fwd : Bool) (k : Nat) : Rel (State.initK fwd k) (SMon.initK k) :=
+  ⟨rfl, rfl, rfl, rfl, rfl, by simp [State.initK, SMon.initK], by simp [State.initK, SMon.initK]⟩
+
+theorem fan_map_refuse (s : State) (v : Bool) : (s.fan v).map (·.refuse) = s.conns.map (·.refuse) := by
+  unfold State.fan
+  split
+  · rw [List.map_map]; congr 1; funext k; exact fan_refuse v k
+  · rfl
+
+theorem fan_map_dirty (s : State) (v : Bool) : (s.fan v).map (·.dirty) = s.conns.map (·.dirty) := by
+  unfold State.fan
+  split
+  · rw [List.map_map]; congr 1; funext k
+    rcases k with ⟨rf, d, w⟩
+    cases d <;> cases rf <;> simp [Conn.fan]
+  · rfl
+
+/-- the model reports a refused deadline call only while the monitor knows of a refusing connection -/
+theorem faulty_of_refusing {s : State} {m : SMon} (rf : m.refusing = s.conns.map (·.refuse)) (h : s.refusing = true) :
+    m.faulty = true := by
+  simp only [State.refusing, Bool.and_eq_true] at h
+  simp only [SMon.faulty, rf, List.any_map]
+  exact h.2
 
 theorem set_same {α : Type} {l : List α} {i : Nat} {a : α} (h : l[i]? = some a) : l.set i a = l := by
   have hlt := getElem?_lt h
@@ -135,14 +166,26 @@ theorem monitor_step {s : State} {m : SMon} {op : Op} (hr : Reachable s) (hrel :
   have hi := sinv_of_reachable hr
   have hnp := npc_of_reachable hr
   have hwi := winv_of_reachable hr
-  obtain ⟨ro, rp, ru, rr, rw⟩ := hrel
+  obtain ⟨ro, rp, ru, rr, rw, rf, re⟩ := hrel
   have hlen : m.isOpen.length = s.handles.length := by rw [ro, List.length_map]
+  have rfF : ∀ v, m.refusing = (s.fan v).map (·.refuse) := fun v => by rw [fan_map_refuse]; exact rf
+  have reF : ∀ v, m.everRef = (s.fan v).map (·.dirty) := fun v => by rw [fan_map_dirty]; exact re
   cases op with
   | «open» =>
     simp only [step, obsOf]
     refine ⟨{ m with isOpen := m.isOpen ++ [true], parked := m.parked ++ [0], ownRd := m.ownRd ++ [false], ownWd := m.ownWd ++ [false] },
       by simp [sharedViolation, hlen], ?_⟩
-    exact ⟨by simp [ro, isOpenB], by simp [rp], ru, by simp [rr], by simp [rw, armedOpen]⟩
+    exact ⟨by simp [ro, isOpenB], by simp [rp], ru, by simp [rr], by simp [rw, armedOpen], rf, re⟩
+  | refuse c on =>
+    simp only [step]
+    cases hk : s.conns[c]? with
+    | none => simp [obsOf]
+    | some k =>
+      simp only [obsOf]
+      refine ⟨{ m with refusing := m.refusing.set c on, everRef := m.everRef.set c (m.everRef.getD c false || on) },
+        by simp [sharedViolation], ?_⟩
+      have hme : m.everRef[c]?.getD false = k.dirty := by rw [re, List.getElem?_map, hk]; rfl
+      exact ⟨ro, rp, ru, rr, rw, by simp [rf, List.map_set], by simp [re, List.map_set, hk]⟩
   | close h =>
     simp only [step]
     cases hg : s.handles[h]? with
@@ -154,12 +197,12 @@ theorem monitor_step {s : State} {m : SMon} {op : Op} (hr : Reachable s) (hrel :
       cases hcl : hd.closed with
       | true =>
         simp only [hcl, if_true, obsOf]
-        refine ⟨m, ?_, ⟨ro, rp, ru, rr, rw⟩⟩
+        refine ⟨m, ?_, ⟨ro, rp, ru, rr, rw, rf, re⟩⟩
         simp [sharedViolation, hmo, isOpenB, hcl, ru]
       | false =>
         have hn := nOpen_close { hd with closed := true, pending := 0, wdArmed := false } hg hcl rfl
         have hrefs := hi.refs
-        have hmn := mon_nOpen (s := s) (m := m) ⟨ro, rp, ru, rr, rw⟩
+        have hmn := mon_nOpen (s := s) (m := m) ⟨ro, rp, ru, rr, rw, rf, re⟩
         have hrd : (s.handles.set h { hd with closed := true, pending := 0, wdArmed := false }).map (·.rdlPast) = s.handles.map (·.rdlPast) :=
           map_set_same (·.rdlPast) hg rfl
         simp only [hcl, Bool.false_eq_true, if_false]
@@ -169,18 +212,32 @@ theorem monitor_step {s : State} {m : SMon} {op : Op} (hr : Reachable s) (hrel :
           refine ⟨{ m with isOpen := m.isOpen.set h false, parked := m.parked.set h 0, u := s.uCloses + 1, ownWd := m.ownWd.set h false }, ?_, ?_⟩
           · simp [sharedViolation, closeClause, hmo, isOpenB, hcl, hmn, h1, ru, hmp]
           · exact ⟨by simp [ro, List.map_set, isOpenB], by simp [rp, List.map_set], rfl, by rw [hrd]; exact rr,
-              by simp [rw, List.map_set, armedOpen]⟩
+              by simp [rw, List.map_set, armedOpen], rf, re⟩
         · have h1 : nOpen s.handles ≠ 1 := by omega
           simp only [hle, if_false]
-          have hobs : ∀ (x y : State), obsOf (.close h) ((if hd.wdArmed = true then (x, Out.closed s.uCloses hd.pending) else (y, Out.closed s.uCloses hd.pending))).2
-              = some (.closed h s.uCloses hd.pending) := by
-            intro x y; split <;> rfl
-          rw [hobs]
-          refine ⟨{ m with isOpen := m.isOpen.set h false, parked := m.parked.set h 0, u := s.uCloses, ownWd := m.ownWd.set h false }, ?_, ?_⟩
-          · simp [sharedViolation, closeClause, hmo, isOpenB, hcl, hmn, h1, ru, hmp]
-          · split <;>
-            exact ⟨by simp [ro, List.map_set, isOpenB], by simp [rp, List.map_set], rfl, by rw [hrd]; exact rr,
-              by simp [rw, List.map_set, armedOpen]⟩
+          cases hwa : hd.wdArmed with
+          | false =>
+            simp only [Bool.false_eq_true, if_false, obsOf]
+            refine ⟨{ m with isOpen := m.isOpen.set h false, parked := m.parked.set h 0, u := s.uCloses, ownWd := m.ownWd.set h false }, ?_, ?_⟩
+            · simp [sharedViolation, closeClause, hmo, isOpenB, hcl, hmn, h1, ru, hmp]
+            · exact ⟨by simp [ro, List.map_set, isOpenB], by simp [rp, List.map_set], rfl, by rw [hrd]; exact rr,
+                by simp [rw, List.map_set, armedOpen], rf, re⟩
+          | true =>
+            simp only [if_true]
+            cases hrf : s.refusing with
+            | false =>
+              simp only [Out.orRefused, Bool.false_eq_true, if_false, obsOf]
+              refine ⟨{ m with isOpen := m.isOpen.set h false, parked := m.parked.set h 0, u := s.uCloses, ownWd := m.ownWd.set h false }, ?_, ?_⟩
+              · simp [sharedViolation, closeClause, hmo, isOpenB, hcl, hmn, h1, ru, hmp]
+              · exact ⟨by simp [ro, List.map_set, isOpenB], by simp [rp, List.map_set], rfl, by rw [hrd]; exact rr,
+                  by simp [rw, List.map_set, armedOpen], rfF false, reF false⟩
+            | true =>
+              have hfa := faulty_of_refusing rf hrf
+              simp only [Out.orRefused, if_true, obsOf]
+              refine ⟨{ m with isOpen := m.isOpen.set h false, parked := m.parked.set h 0, u := s.uCloses, ownWd := m.ownWd.set h false }, ?_, ?_⟩
+              · simp [sharedViolation, closeClause, hmo, isOpenB, hcl, hmn, h1, ru, hmp, hfa]
+              · exact ⟨by simp [ro, List.map_set, isOpenB], by simp [rp, List.map_set], rfl, by rw [hrd]; exact rr,
+                  by simp [rw, List.map_set, armedOpen], rfF false, reF false⟩
   | abort h =>
     simp only [step]
     cases hg : s.handles[h]? with
@@ -192,29 +249,51 @@ theorem monitor_step {s : State} {m : SMon} {op : Op} (hr : Reachable s) (hrel :
       cases hcl : hd.closed with
       | true =>
         simp only [hcl, if_true, obsOf]
-        refine ⟨m, ?_, ⟨ro, rp, ru, rr, rw⟩⟩
+        refine ⟨m, ?_, ⟨ro, rp, ru, rr, rw, rf, re⟩⟩
         simp [sharedViolation, hmo, isOpenB, hcl, ru]
       | false =>
         have hn := nOpen_close { hd with rdlPast := true, closed := true, pending := 0, wdArmed := false } hg hcl rfl
         have hrefs := hi.refs
-        have hmn := mon_nOpen (s := s) (m := m) ⟨ro, rp, ru, rr, rw⟩
+        have hmn := mon_nOpen (s := s) (m := m) ⟨ro, rp, ru, rr, rw, rf, re⟩
         have hmn' : List.countP id m.isOpen = nOpen s.handles := hmn
         simp only [hcl, Bool.false_eq_true, if_false]
         by_cases hle : s.refs - 1 ≤ 0
         · have h1 : nOpen s.handles = 1 := by omega
-          simp only [hle, if_true, obsOf]
-          refine ⟨{ m with isOpen := m.isOpen.set h false, parked := m.parked.set h 0, u := s.uCloses + 1,
-                           ownRd := m.ownRd.set h true, ownWd := m.ownWd.set h false }, ?_, ?_⟩
-          · simp [sharedViolation, closeClause, SMon.nOpen, hmo, isOpenB, hcl, hmn', h1, ru, hmp]
-          · exact ⟨by simp [ro, List.map_set, isOpenB], by simp [rp, List.map_set], rfl, by simp [rr, List.map_set],
-              by simp [rw, List.map_set, armedOpen]⟩
+          simp only [hle, if_true]
+          cases hrf : s.refusing with
+          | false =>
+            simp only [Out.orRefused, Bool.false_eq_true, if_false, obsOf]
+            refine ⟨{ m with isOpen := m.isOpen.set h false, parked := m.parked.set h 0, u := s.uCloses + 1,
+                             ownRd := m.ownRd.set h true, ownWd := m.ownWd.set h false }, ?_, ?_⟩
+            · simp [sharedViolation, closeClause, SMon.nOpen, hmo, isOpenB, hcl, hmn', h1, ru, hmp]
+            · exact ⟨by simp [ro, List.map_set, isOpenB], by simp [rp, List.map_set], rfl, by simp [rr, List.map_set],
+                by simp [rw, List.map_set, armedOpen], rfF true, reF true⟩
+          | true =>
+            have hfa := faulty_of_refusing rf hrf
+            simp only [Out.orRefused, if_true, obsOf]
+            refine ⟨{ m with isOpen := m.isOpen.set h false, parked := m.parked.set h 0, u := s.uCloses + 1,
+                             ownRd := m.ownRd.set h true, ownWd := m.ownWd.set h false }, ?_, ?_⟩
+            · simp [sharedViolation, closeClause, SMon.nOpen, hmo, isOpenB, hcl, hmn', h1, ru, hmp, hfa]
+            · exact ⟨by simp [ro, List.map_set, isOpenB], by simp [rp, List.map_set], rfl, by simp [rr, List.map_set],
+                by simp [rw, List.map_set, armedOpen], rfF true, reF true⟩
         · have h1 : nOpen s.handles ≠ 1 := by omega
-          simp only [hle, if_false, obsOf]
-          refine ⟨{ m with isOpen := m.isOpen.set h false, parked := m.parked.set h 0, u := s.uCloses,
-                           ownRd := m.ownRd.set h true, ownWd := m.ownWd.set h false }, ?_, ?_⟩
-          · simp [sharedViolation, closeClause, SMon.nOpen, hmo, isOpenB, hcl, hmn', h1, ru, hmp]
-          · exact ⟨by simp [ro, List.map_set, isOpenB], by simp [rp, List.map_set], rfl, by simp [rr, List.map_set],
-              by simp [rw, List.map_set, armedOpen]⟩
+          simp only [hle, if_false]
+          cases hrf : s.refusing with
+          | false =>
+            simp only [Out.orRefused, Bool.false_eq_true, if_false, obsOf]
+            refine ⟨{ m with isOpen := m.isOpen.set h false, parked := m.parked.set h 0, u := s.uCloses,
+                             ownRd := m.ownRd.set h true, ownWd := m.ownWd.set h false }, ?_, ?_⟩
+            · simp [sharedViolation, closeClause, SMon.nOpen, hmo, isOpenB, hcl, hmn', h1, ru, hmp]
+            · exact ⟨by simp [ro, List.map_set, isOpenB], by simp [rp, List.map_set], rfl, by simp [rr, List.map_set],
+                by simp [rw, List.map_set, armedOpen], rfF false, reF false⟩
+          | true =>
+            have hfa := faulty_of_refusing rf hrf
+            simp only [Out.orRefused, if_true, obsOf]
+            refine ⟨{ m with isOpen := m.isOpen.set h false, parked := m.parked.set h 0, u := s.uCloses,
+                             ownRd := m.ownRd.set h true, ownWd := m.ownWd.set h false }, ?_, ?_⟩
+            · simp [sharedViolation, closeClause, SMon.nOpen, hmo, isOpenB, hcl, hmn', h1, ru, hmp, hfa]
+            · exact ⟨by simp [ro, List.map_set, isOpenB], by simp [rp, List.map_set], rfl, by simp [rr, List.map_set],
+                by simp [rw, List.map_set, armedOpen], rfF false, reF false⟩
   | read h =>
     simp only [step]
     cases hg : s.handles[h]? with
@@ -228,28 +307,28 @@ theorem monitor_step {s : State} {m : SMon} {op : Op} (hr : Reachable s) (hrel :
       cases hcl : hd.closed with
       | true =>
         simp only [hcl, if_true, obsOf, resOf]
-        exact ⟨m, by simp [sharedViolation, hmo, isOpenB, hcl], ⟨ro, rp, ru, rr, rw⟩⟩
+        exact ⟨m, by simp [sharedViolation, hmo, isOpenB, hcl], ⟨ro, rp, ru, rr, rw, rf, re⟩⟩
       | false =>
         have hu := uCloses_zero_of_open hi hg hcl
         simp only [hcl, Bool.false_eq_true, if_false, hu, Nat.lt_irrefl]
         have ru0 : m.u = 0 := by rw [ru, hu]
         by_cases hq' : s.queue > 0
         · simp only [hq', if_true, obsOf, resOf]
-          exact ⟨m, by simp [sharedViolation, hmo, isOpenB, hcl], ⟨ro, rp, ru0, rr, rw⟩⟩
+          exact ⟨m, by simp [sharedViolation, hmo, isOpenB, hcl], ⟨ro, rp, ru0, rr, rw, rf, re⟩⟩
         · simp only [hq', if_false]
           cases hp : hd.rdlPast with
           | true =>
             simp only [if_true, obsOf, resOf]
-            exact ⟨m, by simp [sharedViolation, hmo, isOpenB, hcl, hmr, hp], ⟨ro, rp, ru, rr, rw⟩⟩
+            exact ⟨m, by simp [sharedViolation, hmo, isOpenB, hcl, hmr, hp], ⟨ro, rp, ru, rr, rw, rf, re⟩⟩
           | false =>
             simp only [Bool.false_eq_true, if_false, obsOf, resOf]
             refine ⟨{ m with parked := m.parked.set h (m.parked.getD h 0 + 1) }, by simp [sharedViolation, hmo, isOpenB, hcl], ?_⟩
-            refine ⟨?_, ?_, ru0, ?_, ?_⟩
+            refine ⟨?_, ?_, ru0, ?_, ?_, rf, re⟩
             · exact rel_isOpen_set ro hg (by simp [*])
             · simp [rp, List.map_set, hg]
             · exact rel_rd_set rr hg (by simp [*])
             · exact rel_wd_set rw hg (by simp [armedOpen, *])
-  | write h =>
+  | write h c =>
     simp only [step]
     cases hg : s.handles[h]? with
     | none => simp [obsOf]
@@ -258,21 +337,47 @@ theorem monitor_step {s : State} {m : SMon} {op : Op} (hr : Reachable s) (hrel :
       cases hcl : hd.closed with
       | true =>
         simp only [hcl, if_true, obsOf, resOf]
-        exact ⟨m, by simp [sharedViolation, hmo, isOpenB, hcl], ⟨ro, rp, ru, rr, rw⟩⟩
+        exact ⟨m, by simp [sharedViolation, hmo, isOpenB, hcl], ⟨ro, rp, ru, rr, rw, rf, re⟩⟩
       | false =>
         have hu := uCloses_zero_of_open hi hg hcl
         simp only [hcl, Bool.false_eq_true, if_false, hu, Nat.lt_irrefl]
-        cases hwp : s.wdlPast with
+        cases hwp : s.reg c with
         | false =>
           simp only [Bool.false_eq_true, if_false, obsOf, resOf]
-          exact ⟨m, by simp [sharedViolation, hmo, isOpenB, hcl], ⟨ro, rp, by rw [ru, hu], rr, rw⟩⟩
+          exact ⟨m, by simp [sharedViolation, hmo, isOpenB, hcl], ⟨ro, rp, by rw [ru, hu], rr, rw, rf, re⟩⟩
         | true =>
           simp only [if_true, obsOf, resOf]
-          have hheld : m.held = true := by
-            rcases hwi.held hwp with ⟨_, h0⟩ | hpos
-            · have := open_pos' hg hcl; omega
-            · simp only [SMon.held, rw]; exact held_of_pos hpos
-          exact ⟨m, by simp [sharedViolation, hmo, isOpenB, hcl, hheld], ⟨ro, rp, by rw [ru, hu], rr, rw⟩⟩
+          -- the connection has a register of its own (it has refused: not healthy), or the common register is armed
+          -- and then an open handle holds the deadline
+          have hok : (m.held || m.everRef[c]?.getD false) = true := by
+            unfold State.reg at hwp
+            cases hk : s.conns[c]? with
+            | none =>
+              rw [hk] at hwp
+              have hheld : m.held = true := by
+                rcases hwi.held hwp with ⟨_, h0⟩ | hpos
+                · have := open_pos' hg hcl; omega
+                · simp only [SMon.held, rw]; exact held_of_pos hpos
+              simp [hheld]
+            | some k =>
+              rw [hk] at hwp
+              cases hkd : k.dirty with
+              | true =>
+                have : m.everRef[c]?.getD false = true := by
+                  rw [re, List.getElem?_map, hk]; simp [hkd]
+                rw [this]; simp
+              | false =>
+                simp only [hkd, Bool.false_eq_true, if_false] at hwp
+                have hheld : m.held = true := by
+                  rcases hwi.held hwp with ⟨_, h0⟩ | hpos
+                  · have := open_pos' hg hcl; omega
+                  · simp only [SMon.held, rw]; exact held_of_pos hpos
+                simp [hheld]
+          refine ⟨m, ?_, ⟨ro, rp, by rw [ru, hu], rr, rw, rf, re⟩⟩
+          simp [sharedViolation, hmo, isOpenB, hcl]
+          intro hh
+          rw [hh] at hok
+          simpa using hok
   | setrd h p =>
     simp only [step]
     cases hg : s.handles[h]? with
@@ -282,11 +387,11 @@ theorem monitor_step {s : State} {m : SMon} {op : Op} (hr : Reachable s) (hrel :
       cases hcl : hd.closed with
       | true =>
         simp only [hcl, if_true, obsOf, resOf]
-        exact ⟨m, by simp [sharedViolation, hmo, isOpenB, hcl], ⟨ro, rp, ru, rr, rw⟩⟩
+        exact ⟨m, by simp [sharedViolation, hmo, isOpenB, hcl], ⟨ro, rp, ru, rr, rw, rf, re⟩⟩
       | false =>
         simp only [hcl, Bool.false_eq_true, if_false, obsOf, resOf]
         refine ⟨{ m with ownRd := m.ownRd.set h p }, by simp [sharedViolation, hmo, isOpenB, hcl], ?_⟩
-        refine ⟨?_, ?_, ru, by simp [rr, List.map_set], ?_⟩
+        refine ⟨?_, ?_, ru, by simp [rr, List.map_set], ?_, rf, re⟩
         · exact rel_isOpen_set ro hg (by simp [*])
         · exact rel_parked_set rp hg (by simp [*])
         · exact rel_wd_set rw hg (by simp [armedOpen, *])
@@ -299,14 +404,23 @@ theorem monitor_step {s : State} {m : SMon} {op : Op} (hr : Reachable s) (hrel :
       cases hcl : hd.closed with
       | true =>
         simp only [hcl, if_true, obsOf, resOf]
-        exact ⟨m, by simp [sharedViolation, hmo, isOpenB, hcl], ⟨ro, rp, ru, rr, rw⟩⟩
+        exact ⟨m, by simp [sharedViolation, hmo, isOpenB, hcl], ⟨ro, rp, ru, rr, rw, rf, re⟩⟩
       | false =>
-        simp only [hcl, Bool.false_eq_true, if_false, obsOf, resOf]
-        refine ⟨{ m with ownWd := m.ownWd.set h p }, by simp [sharedViolation, hmo, isOpenB, hcl], ?_⟩
-        refine ⟨?_, ?_, ru, ?_, by simp [rw, List.map_set, armedOpen, hcl]⟩
-        · exact rel_isOpen_set ro hg (by simp [*])
-        · exact rel_parked_set rp hg (by simp [*])
-        · exact rel_rd_set rr hg (by simp [*])
+        simp only [hcl, Bool.false_eq_true, if_false]
+        have hacc : (s.refusing = true → m.faulty = true) := faulty_of_refusing rf
+        have hv : ∃ r, obsOf (.setwd h p) (Out.ok.orRefused s.refusing) = some (.dl h false true p r)
+            ∧ (r = .ok ∨ (r = .other ∧ m.faulty = true)) := by
+          cases hrf : s.refusing with
+          | false => exact ⟨.ok, rfl, Or.inl rfl⟩
+          | true => exact ⟨.other, rfl, Or.inr ⟨rfl, hacc hrf⟩⟩
+        obtain ⟨r, hobs, hr'⟩ := hv
+        simp only [hobs]
+        refine ⟨{ m with ownWd := m.ownWd.set h p }, ?_, ?_⟩
+        · rcases hr' with h1 | ⟨h1, h2⟩ <;> subst h1 <;> simp [sharedViolation, hmo, isOpenB, hcl, *]
+        · refine ⟨?_, ?_, ru, ?_, by simp [rw, List.map_set, armedOpen], rfF p, reF p⟩
+          · exact rel_isOpen_set ro hg (by simp [*])
+          · exact rel_parked_set rp hg (by simp [*])
+          · exact rel_rd_set rr hg (by simp [*])
   | setd h p =>
     simp only [step]
     cases hg : s.handles[h]? with
@@ -316,27 +430,36 @@ theorem monitor_step {s : State} {m : SMon} {op : Op} (hr : Reachable s) (hrel :
       cases hcl : hd.closed with
       | true =>
         simp only [hcl, if_true, obsOf, resOf]
-        exact ⟨m, by simp [sharedViolation, hmo, isOpenB, hcl], ⟨ro, rp, ru, rr, rw⟩⟩
+        exact ⟨m, by simp [sharedViolation, hmo, isOpenB, hcl], ⟨ro, rp, ru, rr, rw, rf, re⟩⟩
       | false =>
-        simp only [hcl, Bool.false_eq_true, if_false, obsOf, resOf]
-        refine ⟨{ m with ownRd := m.ownRd.set h p, ownWd := m.ownWd.set h p }, by simp [sharedViolation, hmo, isOpenB, hcl], ?_⟩
-        refine ⟨?_, ?_, ru, by simp [rr, List.map_set], by simp [rw, List.map_set, armedOpen, hcl]⟩
-        · exact rel_isOpen_set ro hg (by simp [*])
-        · exact rel_parked_set rp hg (by simp [*])
+        simp only [hcl, Bool.false_eq_true, if_false]
+        have hacc : (s.refusing = true → m.faulty = true) := faulty_of_refusing rf
+        have hv : ∃ r, obsOf (.setd h p) (Out.ok.orRefused s.refusing) = some (.dl h true true p r)
+            ∧ (r = .ok ∨ (r = .other ∧ m.faulty = true)) := by
+          cases hrf : s.refusing with
+          | false => exact ⟨.ok, rfl, Or.inl rfl⟩
+          | true => exact ⟨.other, rfl, Or.inr ⟨rfl, hacc hrf⟩⟩
+        obtain ⟨r, hobs, hr'⟩ := hv
+        simp only [hobs]
+        refine ⟨{ m with ownRd := m.ownRd.set h p, ownWd := m.ownWd.set h p }, ?_, ?_⟩
+        · rcases hr' with h1 | ⟨h1, h2⟩ <;> subst h1 <;> simp [sharedViolation, hmo, isOpenB, hcl, *]
+        · refine ⟨?_, ?_, ru, by simp [rr, List.map_set], by simp [rw, List.map_set, armedOpen], rfF p, reF p⟩
+          · exact rel_isOpen_set ro hg (by simp [*])
+          · exact rel_parked_set rp hg (by simp [*])
   | feed =>
     simp only [step]
     by_cases hu : s.uCloses > 0
     · simp only [hu, if_true, obsOf]
-      exact ⟨m, by simp [sharedViolation], ⟨ro, rp, ru, rr, rw⟩⟩
+      exact ⟨m, by simp [sharedViolation], ⟨ro, rp, ru, rr, rw, rf, re⟩⟩
     · simp only [hu, if_false]
       by_cases h0 : totalPending s.handles = 0
       · simp only [h0, if_true, obsOf]
-        exact ⟨m, by simp [sharedViolation], ⟨ro, rp, ru, rr, rw⟩⟩
+        exact ⟨m, by simp [sharedViolation], ⟨ro, rp, ru, rr, rw, rf, re⟩⟩
       · simp only [h0, if_false]
         by_cases h1 : totalPending s.handles = 1
         · simp only [h1, if_true]
           cases hf : firstPending s.handles 0 with
-          | none => simp only [obsOf]; exact ⟨m, by simp [sharedViolation], ⟨ro, rp, ru, rr, rw⟩⟩
+          | none => simp only [obsOf]; exact ⟨m, by simp [sharedViolation], ⟨ro, rp, ru, rr, rw, rf, re⟩⟩
           | some k =>
             simp only
             obtain ⟨_, hd, hg, hp⟩ := firstPending_spec hf
@@ -353,12 +476,12 @@ theorem monitor_step {s : State} {m : SMon} {op : Op} (hr : Reachable s) (hrel :
             have hmp : m.parked[k]? = some (0 + 1) := by
               rw [rp, List.getElem?_map, hg]; simp [hp1]
             refine ⟨{ m with parked := m.parked.set k 0 }, by simp [sharedViolation, hmo, hmp], ?_⟩
-            refine ⟨?_, by simp [rp, List.map_set], ru, ?_, ?_⟩
+            refine ⟨?_, by simp [rp, List.map_set], ru, ?_, ?_, rf, re⟩
             · exact rel_isOpen_set ro hg (by simp [*])
             · exact rel_rd_set rr hg (by simp [*])
             · exact rel_wd_set rw hg (by simp [armedOpen, *])
         · simp only [h1, if_false, obsOf]
-          exact ⟨m, by simp [sharedViolation], ⟨ro, rp, ru, rr, rw⟩⟩
+          exact ⟨m, by simp [sharedViolation], ⟨ro, rp, ru, rr, rw, rf, re⟩⟩
 
 /-- No observation ⇒ the operation named no handle and changed nothing. -/
 theorem state_of_no_obs {s : State} {op : Op} (h : obsOf op (step s op).2 = none) : (step s op).1 = s := by
@@ -368,7 +491,11 @@ theorem state_of_no_obs {s : State} {op : Op} (h : obsOf op (step s op).2 = none
     revert h
     simp only [step]
     (repeat' split) <;> simp [obsOf]
-  | close k | read k | write k | setrd k p | setwd k p | setd k p | abort k =>
+  | refuse c on =>
+    cases hk : s.conns[c]? with
+    | none => simp [step, hk]
+    | some k => simp [step, hk, obsOf] at h
+  | write k c =>
     cases hg : s.handles[k]? with
     | none => simp [step, hg]
     | some hd =>
@@ -376,6 +503,14 @@ theorem state_of_no_obs {s : State} {op : Op} (h : obsOf op (step s op).2 = none
       revert h
       simp only [step, hg]
       (repeat' split) <;> simp [obsOf]
+  | close k | read k | setrd k p | setwd k p | setd k p | abort k =>
+    cases hg : s.handles[k]? with
+    | none => simp [step, hg]
+    | some hd =>
+      exfalso
+      revert h
+      simp only [step, hg]
+      cases s.refusing <;> (try simp only [Out.orRefused]) <;> (repeat' split) <;> simp [obsOf]
 
 /-- observations of a run of the model -/
 def traceOf (s : State) : List Op → List SObs
